@@ -829,5 +829,10 @@ theorem sopEarly_notImpl {kind : Kind} {op : String} (k : Scalar) (h : sopEarly 
       simp [this]
     | int b sg => simp [Kind.isBool, Kind.isIntegerMap] at h
 
+/-- the typing discipline of `make_empty` (`KindOk`, part of `MapObj.Ok`) makes the blank cell
+    invalid: every `m.Ok` satisfies the hypotheses `m.WF`, `m.BlankInvalid` of Props/C12.lean -/
+theorem Ok_blankInvalid {m : MapObj} (h : m.Ok) : m.WF ∧ m.BlankInvalid :=
+  ⟨h.1, h.2.1.blankInvalid⟩
+
 end ApiScalar
 end HS
